@@ -252,6 +252,10 @@ def type_id_clause(prog, rep):
         if rt is None:
             continue
         n += 1
+        # the lookup may be skipped only for a type number that was just checked (`Some(raw_type_id) == prev_checked`)
+        from .common import holds_at, want_relations
+        want_relations(rep, rule, "registry lookup skipped only for the type checked last", holds_at(ir, bi),
+                       [("key_to_raw_type_id", "Ne", "prev_checked")], b.loc(tt.get("ln")), "registry lookup")
         facts, nes = brs.facts_at(bi)
         lv = brs.lin(rt)
         if lv is not None and brs.prove(Lin.const(off).sub(lv), facts) and not brs.prove(Lin.const(off + 1).sub(lv), facts):
